@@ -42,18 +42,22 @@ inductive ThreadOp
   | get (t : Nat)
   /-- a rounding operation on thread `t`: `Decimal(c, p).round(n)` -/
   | round (t : Nat) (c : Int) (p : Nat) (n : Int)
+  /-- five roundings (1.5, 2.5, -1.5, 2.1, 0.5 to integers) that together identify the mode in effect -/
+  | probe (t : Nat)
 deriving Repr
 
 inductive ThreadObs
   | none
   | mode (m : Mode)
   | dec (r : Outcome Dec)
+  | probe (rs : List (Outcome Dec))
 deriving Repr
 
 def threadStep (prof : Profile) (w : World) : ThreadOp → World × ThreadObs
   | .set t m => (w.setDefault t m, .none)
   | .get t => (w, .mode (w.default t))
   | .round t c p n => (w, .dec (round prof (w.default t) ⟨c, p⟩ n))
+  | .probe t => (w, .probe ([15, 25, -15, 21, 5].map fun c => round prof (w.default t) ⟨c, 1⟩ 0))
 
 def runSchedule (prof : Profile) (w : World) : List ThreadOp → List ThreadObs
   | [] => []
